@@ -518,10 +518,3 @@ impl<VM: VMBinding> WorkerGroup<VM> {
         ret
     }
 }
-
-/// Verification hook: make the calling thread look like GC worker `ordinal` (what
-/// `GCWorker::run` does through the private thread-local).
-#[cfg(feature = "mmtk_verif")]
-pub fn verif_set_worker_ordinal(ordinal: ThreadId) {
-    WORKER_ORDINAL.with(|x| x.store(ordinal, Ordering::Relaxed));
-}
